@@ -1,12 +1,12 @@
 #!/bin/bash
 # usage: seedsave.sh <worktree> <seed id> <property> "<needs>" "<detected>"
-WT=$1; ID=$2; PROP=$3; NEEDS=$4; DET=$5
+WT=$1; ID=$2; PROP=$3; NEEDS=$4; DET=$5; RC=${6:-1}
 D=/verif/seeded/$ID; mkdir -p $D
 cp $WT/seed/patch.diff $WT/seed/demo.rs $WT/seed/notes.md $D/
-python3 - "$ID" "$PROP" "$NEEDS" "$DET" <<'PY'
+python3 - "$ID" "$PROP" "$NEEDS" "$DET" "$RC" <<'PY'
 import json,sys
-id,prop,needs,det=sys.argv[1:5]
+id,prop,needs,det,rc=sys.argv[1:6]
 json.dump({"id":id,"property":prop,"source":"independent sub-agent given only the property text and a scratch worktree",
  "needs":needs,"confirmed":"vx/seedconfirm.sh <scratch worktree at /repo HEAD> patch.diff demo.rs -> TESTS_WITH_PATCH=ok DEMO_WITH_PATCH=fail DEMO_WITHOUT_PATCH=pass",
- "detected":det}, open("/verif/seeded/%s/meta.json"%id,"w"), indent=1)
+ "detected":det, "expect_rc":int(rc)}, open("/verif/seeded/%s/meta.json"%id,"w"), indent=1)
 PY
